@@ -605,4 +605,168 @@ theorem addListH_spec {h h2 : Heap} {rank : Addr → Nat} (hr : h.RankedBy rank)
       (mapsOk_alloc hm (fun kvs hk => by cases hk)) he'⟩
   · cases he
 
+/-- a single write that keeps the kind of an existing composite cell and adds at most `v` and the
+    nil leaf to its children (`Set` / `MustSet` / `Append` on a list, `AddValue` on a plain name) -/
+theorem attachSpec_write {h : Heap} {l v : Addr} {cw cw' : Cell} (hg : h.get? l = some cw) (hleaf : cw.isLeaf = false)
+    (hl : cw'.isList = cw.isList) (hcn : cw'.isCont = cw.isCont)
+    (hk : ∀ k ∈ cw'.kids, k ∈ cw.kids ∨ k = nilAddr ∨ k = v)
+    (hs : ∀ kvs kvs', cw = .cont kvs → cw' = .cont kvs' → AMap.Sorted kvs → AMap.Sorted kvs') :
+    AttachSpec h l v l (h.write l cw') := by
+  refine ⟨(by rw [size_write]; exact Nat.le_refl _), .refl _, fun a _ hne => get?_write_ne h _ hne, ?_, ?_⟩
+  · refine ⟨cw, cw', hg, get?_write_self h _ (get?_lt hg), hleaf, hl, hcn, ?_, hs⟩
+    intro k hkm
+    rcases hk k hkm with hk | hk | hk
+    · exact Or.inl hk
+    · exact Or.inr (Or.inl hk)
+    · exact Or.inr (Or.inr (Or.inl hk))
+  · intro a cell ha hga
+    have := get?_lt hga
+    rw [size_write] at this
+    exact absurd this (Nat.not_lt.mpr ha)
+
+theorem listSet_spec {h h' : Heap} {l v : Addr} {idx : Nat} (he : Ytk.Heap.listSet h l idx v = some h') :
+    AttachSpec h l v l h' := by
+  unfold Ytk.Heap.listSet at he
+  split at he
+  · rename_i xs hg
+    simp only [Option.some.injEq] at he; subst he
+    refine attachSpec_write hg rfl rfl rfl ?_ (fun _ _ e => by cases e)
+    intro k hk
+    exact mem_set_padH (xs := xs) (i := idx) (by simpa [Cell.kids, padH] using hk)
+  · cases he
+
+theorem listAppend_spec {h h' : Heap} {l v : Addr} (he : Ytk.Heap.listAppend h l v = some h') :
+    AttachSpec h l v l h' := by
+  unfold Ytk.Heap.listAppend at he
+  split at he
+  · rename_i xs hg
+    simp only [Option.some.injEq] at he; subst he
+    refine attachSpec_write hg rfl rfl rfl ?_ (fun _ _ e => by cases e)
+    intro k hk
+    simp only [Cell.kids, List.mem_append, List.mem_singleton] at hk
+    rcases hk with hk | hk
+    · exact Or.inl hk
+    · exact Or.inr (Or.inr hk)
+  · cases he
+
+theorem listMustSetH_spec {h h' : Heap} {l v : Addr} {idx : Nat} (he : listMustSetH h l idx v = .ok h') :
+    AttachSpec h l v l h' := by
+  unfold listMustSetH at he
+  split at he
+  · rename_i xs hg
+    split at he
+    · simp only [Outcome.ok.injEq] at he; subst he
+      refine attachSpec_write hg rfl rfl rfl ?_ (fun _ _ e => by cases e)
+      intro k hk
+      rcases List.mem_or_eq_of_mem_set (by simpa [Cell.kids] using hk) with hk | hk
+      · exact Or.inl hk
+      · exact Or.inr (Or.inr hk)
+    · cases he
+  · cases he
+
+/-! ## 4. the removing calls satisfy `ShrinkSpec` -/
+
+theorem ShrinkSpec.refl (h : Heap) : ShrinkSpec h h :=
+  ⟨rfl, fun _ _ hg => hg, fun _ cell' hg => ⟨cell', hg, fun _ hk => hk, rfl, rfl, fun _ _ e1 e2 hs => by
+    cases e1; cases e2; exact hs⟩⟩
+
+theorem ShrinkSpec.trans {h h1 h2 : Heap} (s1 : ShrinkSpec h h1) (s2 : ShrinkSpec h1 h2) : ShrinkSpec h h2 := by
+  refine ⟨by rw [s2.size_eq, s1.size_eq], fun a s hg => s2.leaves a s (s1.leaves a s hg), ?_⟩
+  intro a cell2 hg2
+  obtain ⟨cell1, hg1, k1, l1, i1, so1⟩ := s2.cells a cell2 hg2
+  obtain ⟨cell, hg, k0, l0, i0, so0⟩ := s1.cells a cell1 hg1
+  refine ⟨cell, hg, fun k hk => k0 k (k1 k hk), l1.trans l0, i1.trans i0, ?_⟩
+  intro kvs kvs2 e e2 hs
+  subst e; subst e2
+  cases cell1 with
+  | leaf s => simp [Cell.isLeaf] at l0
+  | list xs => simp [Cell.isList] at i0
+  | cont kvs1 => exact so1 kvs1 kvs2 rfl rfl (so0 kvs kvs1 rfl rfl hs)
+
+/-- one write that only drops children of a composite cell -/
+theorem shrinkSpec_write {h : Heap} {a : Addr} {cell cell' : Cell} (hg : h.get? a = some cell)
+    (hleaf : cell.isLeaf = false) (hk : ∀ k ∈ cell'.kids, k ∈ cell.kids) (hl : cell'.isLeaf = cell.isLeaf)
+    (hi : cell'.isList = cell.isList)
+    (hs : ∀ kvs kvs', cell = .cont kvs → cell' = .cont kvs' → AMap.Sorted kvs → AMap.Sorted kvs') :
+    ShrinkSpec h (h.write a cell') := by
+  refine ⟨size_write h a cell', ?_, ?_⟩
+  · intro b s hb
+    have hne : b ≠ a := by
+      intro e; subst e; rw [hg] at hb; cases hb; simp [Cell.isLeaf] at hleaf
+    rw [get?_write_ne h _ hne]; exact hb
+  · intro b cb hb
+    by_cases hba : b = a
+    · subst hba
+      rw [get?_write_self h _ (get?_lt hg)] at hb
+      cases hb
+      exact ⟨cell, hg, hk, hl, hi, hs⟩
+    · rw [get?_write_ne h _ hba] at hb
+      exact ⟨cb, hb, fun _ h => h, rfl, rfl, fun _ _ e1 e2 hs => by cases e1; cases e2; exact hs⟩
+
+theorem remove_spec {h h' : Heap} {c : Addr} {name : String} (he : Ytk.Heap.remove h c name = some h') :
+    ShrinkSpec h h' := by
+  unfold Ytk.Heap.remove at he
+  split at he
+  · rename_i kvs hg
+    simp only [Option.some.injEq] at he; subst he
+    refine shrinkSpec_write hg rfl ?_ rfl rfl ?_
+    · intro k hk
+      simp only [Cell.kids, List.mem_map] at hk ⊢
+      obtain ⟨p, hp, rfl⟩ := hk
+      exact ⟨p, Ytk.AMap.mem_erase hp, rfl⟩
+    · intro k1 k2 e1 e2 hs
+      cases e1; cases e2
+      exact AMap.sorted_erase hs _
+  · cases he
+
+theorem listClear_spec {h h' : Heap} {l : Addr} (he : listClear h l = some h') : ShrinkSpec h h' := by
+  unfold listClear at he
+  split at he
+  · rename_i xs hg
+    simp only [Option.some.injEq] at he; subst he
+    exact shrinkSpec_write hg rfl (fun k hk => by simp [Cell.kids] at hk) rfl rfl (fun _ _ e => by cases e)
+  · cases he
+
+theorem removeAtSegsH_spec {h : Heap} : ∀ (segs : List String) (c : Addr) (h' : Heap),
+    removeAtSegsH h c segs = some h' → ShrinkSpec h h'
+  | [], _, _, he => by
+    simp only [removeAtSegsH, Option.some.injEq] at he; subst he; exact .refl _
+  | [s], c, h', he => by
+    simp only [removeAtSegsH] at he; exact remove_spec he
+  | s :: t :: rest, c, h', he => by
+    simp only [removeAtSegsH] at he
+    cases hcc : contChildH h c s with
+    | some x => simp only [hcc] at he; exact removeAtSegsH_spec (t :: rest) x h' he
+    | none => simp only [hcc, Option.some.injEq] at he; subst he; exact .refl _
+
+theorem compactKvsH_spec {g : Heap → Addr → Option Heap} (hg : ∀ h a h', g h a = some h' → ShrinkSpec h h') :
+    ∀ (kvs : List (String × Addr)) (h : Heap) (c : Addr) (h' : Heap), compactKvsH g h c kvs = some h' →
+      ShrinkSpec h h'
+  | [], h, c, h', he => by
+    simp only [compactKvsH, Option.some.injEq] at he; subst he; exact .refl _
+  | (k, v) :: rest, h, c, h', he => by
+    simp only [compactKvsH] at he
+    split at he
+    · cases hgv : g h v with
+      | none => simp [hgv] at he
+      | some h1 =>
+        simp only [hgv] at he
+        have s1 := hg h v h1 hgv
+        split at he
+        · cases hrm : Ytk.Heap.remove h1 c k with
+          | none => simp [hrm] at he
+          | some h2 =>
+            simp only [hrm] at he
+            exact s1.trans ((remove_spec hrm).trans (compactKvsH_spec hg rest h2 c h' he))
+        · exact s1.trans (compactKvsH_spec hg rest h1 c h' he)
+    · exact compactKvsH_spec hg rest h c h' he
+
+theorem compactF_spec : ∀ (f : Nat) (h : Heap) (c : Addr) (h' : Heap), compactF f h c = some h' → ShrinkSpec h h'
+  | 0, _, _, _, he => by simp [compactF] at he
+  | f + 1, h, c, h', he => by
+    simp only [compactF] at he
+    split at he
+    · exact compactKvsH_spec (compactF_spec f) _ h c h' he
+    · cases he
+
 end Ytk.Heap
